@@ -66,6 +66,35 @@ def handle (line : String) : String :=
       let ⟨_, _, _, T, c⟩ ← readTables c
       if !c.atEnd then none
       pure (toString T.wf)
+    | "mktables" =>
+      -- np ns nt  p2s[np]  s2p[ns]  perms[nt*ns]  ↦  cert defined [s2pp[ns] nsym[ns]]
+      let (np, c) ← c.nat?
+      let (ns, c) ← c.nat?
+      let (nt, c) ← c.nat?
+      let (p2s, c) ← c.nats? np
+      let (s2p, c) ← c.nats? ns
+      let (perms, c) ← c.nats? (nt * ns)
+      if !c.atEnd then none
+      let p2s ← allFin? ns p2s
+      let s2p ← allFin? ns s2p
+      let perms ← allFin? ns perms
+      if hnp : 0 < np then
+        if hnt : 0 < nt then
+          if hns : 0 < ns then
+            let p2sF : Fin np → Fin ns := fun i => (p2s[i.1]?).getD ⟨0, hns⟩
+            let s2pF : Fin ns → Fin ns := fun i => (s2p[i.1]?).getD ⟨0, hns⟩
+            let permsF : Fin nt → Fin ns → Fin ns := fun t i => (perms[t.1 * ns + i.1]?).getD ⟨0, hns⟩
+            let cert := transGroupCert p2sF s2pF permsF
+            let dfn := tablesDefined p2sF s2pF permsF
+            if dfn then
+              let T := mkTables hnp hnt p2sF s2pF permsF
+              let a := (List.finRange ns).map (fun i => toString (T.s2pp i).1)
+              let b := (List.finRange ns).map (fun i => toString (T.nsym i).1)
+              pure (s!"{cert} {dfn} " ++ " ".intercalate (a ++ b))
+            else pure s!"{cert} {dfn}"
+          else none
+        else none
+      else none
     | "compactsym" | "transposec" | "permsymc" | "expand" | "transposeloop" | "transposelooppinned" =>
       let (L, c) ← c.nat?
       let ⟨np, ns, _, T, c⟩ ← readTables c
